@@ -82,6 +82,8 @@ package limit
 //@   requires tl != nil
 //@   let locked = on("lock", tl.rescueLock)
 //@   ensures [one-monitor] at(locked, tl.monitorStarted) ==> calls("go (*TokenLimiter).waitForRedis") == 0 && tl.redisAlive == old(tl.redisAlive)
+// the rescue bucket lives as long as the limiter: entering rescue mode never replaces (refills) it
+//@   ensures [same-rescue-bucket] tl.rescueLimiter == old(tl.rescueLimiter) && tl.rate == old(tl.rate) && tl.burst == old(tl.burst)
 //@   ensures [starts] !at(locked, tl.monitorStarted) ==> calls("go (*TokenLimiter).waitForRedis") == 1 && tl.monitorStarted && tl.redisAlive == 0 && before(locked, "go (*TokenLimiter).waitForRedis")
 
 // The monitor: pings on every tick; the first successful ping switches back to Redis and ends the monitor; when it
